@@ -22,6 +22,11 @@
   pendingFinalTaskStateCh yields `hang`, a handler error that ends eventLoop
   yields `loopexit`.
 
+  Five repairs of the executor are switches of the model (`Cfg`): `codeCfg` is the
+  code as it is (all five in), `legacyCfg` the code before them (the former
+  refutations stay true statements about that code). Props/C17 ties every switch
+  of `codeCfg` to a fact re-extracted from the source.
+
   What the children do is a parameter (`Beh`); operating-system facts used:
   a process group that received SIGKILL is gone; SIGTERM/SIGINT end a process
   unless it ignores them; a child that forked keeps helpers in its group.
@@ -29,6 +34,31 @@
 import ControlModel.Basic
 
 namespace ExecTask
+
+/-- Which repairs are in the code (each is one `fix:` commit in /repo). -/
+structure Cfg where
+  /-- ensureBasicTaskKilled tests taskCmd.ProcessState and taskCmd.Process for nil and pushes into
+      pendingFinalTaskStateCh without blocking (STOP of a running child kills its group) -/
+  stopNilSafe : Bool
+  /-- handleLaunchEvent returns when NewTask gave no task (TASK_FAILED is already on its way) -/
+  launchNilSafe : Bool
+  /-- the Launch goroutine of a controllable task tests taskCmd.Process before signalling after a failed Start -/
+  startFailSafe : Bool
+  /-- handleKillEvent ignores a KILL for a task that is not active instead of returning an error -/
+  killInactiveIgnored : Bool
+  /-- basicTaskBase.Kill stops the TASK_RUNNING timer armed by doLaunch -/
+  killStopsTimer : Bool
+  deriving DecidableEq, Repr, Inhabited
+
+/-- The code before the repairs. -/
+def legacyCfg : Cfg :=
+  { stopNilSafe := false, launchNilSafe := false, startFailSafe := false, killInactiveIgnored := false,
+    killStopsTimer := false }
+
+/-- The code as it is (identified with the facts extracted from the source in Props/C17). -/
+def codeCfg : Cfg :=
+  { stopNilSafe := true, launchNilSafe := true, startFailSafe := true, killInactiveIgnored := true,
+    killStopsTimer := true }
 
 /-- controlmode.BASIC / HOOK / DIRECT(=controllable); `nodata` = TaskInfo.Data missing. -/
 inductive Kind where
@@ -86,7 +116,7 @@ inductive Site where
 
 inductive Res where
   | ok | none | dead | loopexit | notask | norpc | nonhook
-  | ignored     -- a KILL for a task whose terminal status is out, survived by the loop (never produced by this model)
+  | ignored     -- a KILL for a task that is not active (any more), survived by the loop
   | resp (st : Dev) (err : Bool)
   | hresp (err : Bool)
   | crash (s : Site)
@@ -114,6 +144,8 @@ structure St where
   orphans : Nat
   /-- a forked helper process is alive in a child's process group -/
   helpers : Bool
+  /-- a forked helper process is alive in the group of a child that is not the latest one -/
+  helpersOld : Bool
   /-- controllable: t.rpc != nil -/
   rpc     : Bool
   dev     : Dev
@@ -184,14 +216,29 @@ def spawn (s : St) : St × Bool :=
   let orph := if s.child = .running then s.orphans + 1 else s.orphans
   if s.beh.startFails then
     -- prepareTaskCmd has already assigned t.taskCmd; Start() fails: Process and ProcessState stay nil
-    ({ s with cmd := true, child := .notStarted, reaped := false, orphans := orph }, true)
+    ({ s with cmd := true, child := .notStarted, reaped := false, orphans := orph, helpersOld := s.helpers }, true)
   else
-    ({ s with cmd := true, child := .running, reaped := false, orphans := orph,
+    ({ s with cmd := true, child := .running, reaped := false, orphans := orph, helpersOld := s.helpers,
               helpers := s.helpers || s.beh.forks }, false)
 
-/-- ensureBasicTaskKilled, basic tasks only. -/
-def stopBasic (s : St) : St × Res :=
+/-- ensureBasicTaskKilled, basic tasks only.
+    Repaired (`stopNilSafe`): a child whose Wait() has returned, or that never started, is left alone; a running
+    child gets TASK_KILLED queued for its reaper (never blocking) and SIGKILL to its process group: the child and
+    the helpers of its group are gone, the reaper reports BASIC_TASK_TERMINATED (KILLED, involuntary).
+    Before: ProcessState was used without a nil test (panic while the child runs / after a failed Start), and
+    after a child that died of a signal the push went into a channel nobody reads any more. -/
+def stopBasic (c : Cfg) (s : St) : St × Res :=
   if !s.cmd then (s, .resp .CONFIGURED false)
+  else if c.stopNilSafe then
+    if s.reaped then (s, .resp .CONFIGURED false)                      -- ProcessState != nil
+    else match s.child with
+      | .running =>
+        let p := match s.pending with
+          | some f => some f                                           -- channel full: the push is skipped
+          | none => some .KILLED
+        ({ s with child := .signalled, reaped := true, pending := none, helpers := s.helpersOld,
+                  out := s.out ++ [bttOf .signalled p] }, .resp .CONFIGURED false)
+      | _ => (s, .resp .CONFIGURED false)                              -- Process == nil: Start() failed
   else if !s.reaped then (s, .crash .ensureBasicTaskKilled)           -- ProcessState == nil
   else match s.child with
     | .exited _ => (s, .resp .CONFIGURED false)                        -- ProcessState.Exited()
@@ -235,7 +282,7 @@ def reapCtl (s : St) (c : Child) : St :=
            out := s.out ++ [.term fin] }
 
 /-- One step. The task is looked up in activeTasks first (handlers.go). -/
-def step (s : St) (op : Op) : St × Res :=
+def step (c : Cfg) (s : St) (op : Op) : St × Res :=
   match op with
   | .tick =>
     if s.kind.basicLike then
@@ -250,11 +297,15 @@ def step (s : St) (op : Op) : St × Res :=
       else (s, .none)            -- controllable, still dialling: nobody calls Wait()
     else (s, .none)
   | .kill =>
-    if !s.active then ({ s with loop := false }, .loopexit)             -- "invalid task ID" ends eventLoop
+    if !s.active then
+      if c.killInactiveIgnored then (s, .ignored)                        -- logged, nothing to do
+      else ({ s with loop := false }, .loopexit)                         -- "invalid task ID" ends eventLoop
     else match s.kind with
       | .basic | .hook =>
-        -- basicTaskBase.Kill: forget taskCmd, report FINISHED; the child is not signalled
-        ({ s with cmd := false, active := false, killed := true, out := s.out ++ [.term .FINISHED] }, .ok)
+        -- basicTaskBase.Kill: forget taskCmd, (repaired: stop the TASK_RUNNING timer,) report FINISHED;
+        -- the child is not signalled
+        ({ s with cmd := false, active := false, killed := true, timer := s.timer && !c.killStopsTimer,
+                  out := s.out ++ [.term .FINISHED] }, .ok)
       | .ctl =>
         if !s.rpc then (s, .crash .ctlKill)
         else
@@ -276,7 +327,7 @@ def step (s : St) (op : Op) : St × Res :=
         | .start =>
           let (s', failed) := spawn s
           (s', .resp (if failed then .CONFIGURED else .RUNNING) failed)
-        | .stop => stopBasic s
+        | .stop => stopBasic c s
         | _ => (s, .resp (opDst op) false)
       | .hook => (s, .resp (opDst op) false)
       | .ctl => ctlTransition s op
@@ -284,16 +335,25 @@ def step (s : St) (op : Op) : St × Res :=
 
 def base (k : Kind) (b : Beh) : St :=
   { kind := k, beh := b, loop := true, active := false, timer := false, cmd := false, child := .notStarted,
-    reaped := false, pending := none, orphans := 0, helpers := false, rpc := false, dev := .STANDBY,
+    reaped := false, pending := none, orphans := 0, helpers := false, helpersOld := false, rpc := false,
+    dev := .STANDBY,
     out := [], sigs := [], killed := false }
 
-/-- Step 0: the LAUNCH event. -/
-def init (k : Kind) (b : Beh) : St × Res :=
+/-- Step 0: the LAUNCH event.
+    `nodata`: NewTask reports TASK_FAILED and returns nil; repaired, handleLaunchEvent stops there (the task
+    never becomes active), before it called Launch() on nil.
+    controllable, Start() fails: the Launch goroutine reports TASK_FAILED (which removes the task from
+    activeTasks); repaired, it stops there, before it evaluated taskCmd.Process.Pid with Process == nil. -/
+def init (c : Cfg) (k : Kind) (b : Beh) : St × Res :=
   match k with
-  | .nodata => (base k b, .crash .handleLaunchEvent)
+  | .nodata =>
+    if c.launchNilSafe then ({ base k b with out := [.term .FAILED] }, .ok)
+    else (base k b, .crash .handleLaunchEvent)
   | .basic | .hook => ({ base k b with active := true, timer := true }, .ok)
   | .ctl =>
-    if b.startFails then (base k b, .crash .ctlLaunch)
+    if b.startFails then
+      if c.startFailSafe then ({ base k b with out := [.term .FAILED] }, .ok)
+      else (base k b, .crash .ctlLaunch)
     else if b.ready then
       ({ base k b with active := true, child := .running, rpc := true, helpers := b.forks, out := [.running] }, .ok)
     else ({ base k b with active := true, child := .running }, .ok)
@@ -325,24 +385,24 @@ def haltState (s : St) (r : Res) : St :=
   | _ => s
 
 /-- Run the rest of a schedule. A crash or hang ends it. -/
-def runFrom (s : St) : List Op → Outcome
+def runFrom (c : Cfg) (s : St) : List Op → Outcome
   | [] => { st := finish s, res := [], halted := false }
   | op :: ops =>
     if !s.loop then
-      let o := runFrom s ops
+      let o := runFrom c s ops
       { o with res := .dead :: o.res }
     else
-      let (s', r) := step s op
+      let (s', r) := step c s op
       if r.halts then { st := haltState s r, res := [r], halted := true }
       else
-        let o := runFrom s' ops
+        let o := runFrom c s' ops
         { o with res := r :: o.res }
 
-def run (k : Kind) (b : Beh) (ops : List Op) : Outcome :=
-  let (s, r) := init k b
+def run (c : Cfg) (k : Kind) (b : Beh) (ops : List Op) : Outcome :=
+  let (s, r) := init c k b
   if r.halts then { st := s, res := [r], halted := true }
   else
-    let o := runFrom s ops
+    let o := runFrom c s ops
     { o with res := r :: o.res }
 
 /-- is anything of the task's process groups still alive -/
